@@ -73,7 +73,7 @@ Lemma facts_idx_drop s id fact : st_facts (idx_drop s id fact) = aremove id (st_
 Proof.
   unfold idx_drop. cbn [st_facts set_tindex set_facts].
   destruct (extract_rule fact false) as [[r|]|e|w|]; try reflexivity.
-  unfold unindex_rule. destruct (rule_patterns r); reflexivity.
+  unfold unindex_rule. destruct (is_scheduled r); [reflexivity|]. destruct (rule_patterns r); reflexivity.
 Qed.
 
 Lemma eqp_pre_drop s id fact :
